@@ -295,6 +295,70 @@ func c16Space(name string, ts []*tree.Node, paths []string, nopts int) *core.Spa
 	}
 }
 
+// c16References: the second document sets a key at or above the option's path to a whole-value
+// reference to an object (VarExp): the option applies as if the object were written in place.
+func c16References() *core.Space {
+	type doc struct {
+		name       string
+		a, b, bSub M // b with the reference, bSub with the referenced object written in place
+	}
+	docs := []doc{
+		{"a: ${tmpl}", M{"a": M{"l": L{"A0", "A1"}, "m": M{"l": L{"A2"}}}, "l": L{"A3"}}, M{"a": "${tmpl}", "tmpl": M{"l": L{"B0"}, "m": M{"l": L{"B1"}}}, "l": L{"B2"}}, M{"a": M{"l": L{"B0"}, "m": M{"l": L{"B1"}}}, "tmpl": M{"l": L{"B0"}, "m": M{"l": L{"B1"}}}, "l": L{"B2"}}},
+		{"a.m: ${tmpl}", M{"a": M{"l": L{"A0"}, "m": M{"l": L{"A2", "A4"}}}}, M{"a": M{"l": L{"B3"}, "m": "${tmpl}"}, "tmpl": M{"l": L{"B1"}}}, M{"a": M{"l": L{"B3"}, "m": M{"l": L{"B1"}}}, "tmpl": M{"l": L{"B1"}}}},
+	}
+	paths := []string{"a", "a.l", "l", "a.m", "a.m.l", "**.l", "tmpl"}
+	radices := []int{len(docs), len(allPolicies), len(paths), len(fieldPolicies)}
+	return &core.Space{
+		Name: "references-under-field-options",
+		Size: product(radices...),
+		Text: func(i int) string {
+			d := mixedRadix(i, radices...)
+			return fmt.Sprintf("global=%s opts=%s(%q) A=%v B=%v (VarExp)", allPolicies[d[1]], fieldOptName(fieldPolicies[d[3]]), paths[d[2]], docs[d[0]].a, docs[d[0]].b)
+		},
+		Exec: func(i int) core.Result {
+			d := mixedRadix(i, radices...)
+			dc, g, fo := docs[d[0]], allPolicies[d[1]], fieldOpt{paths[d[2]], fieldPolicies[d[3]]}
+			run := func(b M) (string, error) {
+				opts := []ucfg.Option{ucfg.PathSep("."), ucfg.VarExp}
+				ca, err := ucfg.NewFrom(dc.a, opts...)
+				if err != nil {
+					return "", err
+				}
+				mo := append(append([]ucfg.Option{}, opts...), policyOpt[g]...)
+				mo = append(mo, fo.option())
+				if err := ca.Merge(b, mo...); err != nil {
+					return "", err
+				}
+				var m map[string]interface{}
+				if err := ca.Unpack(&m, opts...); err != nil {
+					return "", err
+				}
+				return tree.CanonGo(m), nil
+			}
+			var res core.Result
+			pi := core.Guard(func() {
+				// differential oracle: the referenced object written in place gives the expected result
+				want, werr := run(dc.bSub)
+				got, gerr := run(dc.b)
+				if werr != nil {
+					res = core.Fail("refs", "ERROR in-place", werr.Error())
+					return
+				}
+				if gerr != nil || got != want {
+					res = core.Fail("refs", fmt.Sprintf("REFERENCE-CHANGES-FIELD-POLICY global=%s %s", g, optSig([]fieldOpt{fo})), fmt.Sprintf("%s: with the object written in place %s, with the reference (%s, %v)", dc.name, want, got, gerr))
+					return
+				}
+				res.Nontrivial = true
+				res.Outcome = "same"
+			})
+			if pi != nil {
+				return apiPanic("refs", pi)
+			}
+			return res
+		},
+	}
+}
+
 // c16Reuse: Option values are reused across Merge calls in different combinations
 // (first call: a+b, second call: a alone); the second call must behave like a alone.
 func c16Reuse(ts []*tree.Node, paths []string) *core.Space {
@@ -394,6 +458,7 @@ func init() {
 				withNil := dictTop(unionTrees(cachedEnum(2, kA, 2), cachedEnum(1, kAB, 2), noNilTrees(2, kAB, 2)))
 				wild := []string{"*", "*.a", "*.b", "a.*", "**.a", "**.b", "**.a.a", "*.0", "**.0"}
 				return []*core.Space{
+					c16References(),
 					c16Reuse(dictTop(unionTrees(noNilTrees(1, kAB, 2), spinesAB(1))), []string{"a", "b", "a.a", "a.b", "b.a", "a.0"}),
 					c16Space("one-option", withNil, paths, 1),
 					c16Space("one-option-spines", dictTop(spinesAB(3)), append(append([]string{}, paths...), "a.0.a", "a.1", "a.1.a", "a.a.0"), 1),
@@ -424,6 +489,7 @@ func init() {
 			}
 			idxPaths := []string{"a.0", "a.1", "a.2", "a.1.a", "a.0.a", "a.2.b", "a.1.0", "a.0.1", "a.1.1", "a.3"}
 			return []*core.Space{
+				c16References(),
 				c16Space("index-options-on-long-lists", idxTrees, idxPaths, 1),
 				c16Space("one-option", base, paths, 1),
 				c16Space("one-option-spines", sp, append(append([]string{}, paths...), "a.0.a", "a.1", "a.1.a"), 1),
